@@ -31,8 +31,9 @@ def gen_cases(tier, seed):
         yield "exh_strings", {"len": 3, "first": [a, min(58, a + 4)]}
     for i in range(60 if q else 1200):
         yield "mutants", {"salt": rng.getrandbits(32), "n": 40}
-    for i in range(40 if q else 600):
-        yield "cli", {"salt": rng.getrandbits(32), "fmt": ["raw", "hex", "bin"][i % 3], "check": i % 2 == 0}
+    for i in range(48 if q else 720):
+        # full product input format x check x framing byte at the end/start of the data (deterministic, not drawn)
+        yield "cli", {"salt": rng.getrandbits(32), "fmt": ["raw", "hex", "bin"][i % 3], "check": (i // 3) % 2 == 0, "edge": (i // 6) % 8, "where": (i // 48) % 3}
     yield "arg_types", {"salt": rng.getrandbits(32)}
     for i in range(10 if q else 100):
         yield "short_strings", {"salt": rng.getrandbits(32), "n": 300}
@@ -255,8 +256,12 @@ def run_case(kind, params, ctx):
         return
     if kind == "cli":
         from . import clihelp
-        ln = rng.choice([0, 1, 2, 20, 21, 33, 64])
-        data = clihelp.edgy(rng, ln) if rng.random() < 0.7 else (b"\x00" * rng.choice([1, 3]) + rand_bytes(rng, ln))
+        ln = rng.choice([1, 2, 20, 21, 33, 64])
+        eb = clihelp.EDGE_BYTES[params.get("edge", 7)]
+        if eb is None:
+            data = rng.choice([b"", b"\x00" * rng.choice([1, 3]) + rand_bytes(rng, ln), rand_bytes(rng, ln)])
+        else:
+            data = clihelp.edgy(rng, ln, where=["both", "end", "start"][params.get("where", 0)], byte=eb)
         fmt, chk = params["fmt"], params["check"]
         exp = r58.check_encode(data) if chk else r58.encode(data)
         r = clihelp.run(["base58"] + (["--check"] if chk else []) + [clihelp.fmt_flag(fmt)], clihelp.rep(data, fmt))
